@@ -89,7 +89,9 @@ class FJSPGenerator(Generator):
         if self.same_mean_per_op:
             proc_times = torch.ones((bs, self.num_mas, n_ops_max))
             proc_time_means = torch.randint(
-                self.min_processing_time, self.max_processing_time, (bs, n_ops_max)
+                self.min_processing_time,
+                max(self.max_processing_time, self.min_processing_time + 1),  # min == max: constant
+                (bs, n_ops_max),
             )
             low_bounds = torch.maximum(
                 torch.full_like(proc_times, self.min_processing_time),
